@@ -159,6 +159,10 @@ pub fn case(idx: u64, seed: u64, p: &Params, o: &mut CaseOut) {
     let bad = items.iter().find(|&&(v, w)| refd.get(&v).map(|&x| x as usize * k) != Some(w));
     o.check(bad.is_none(), "DijkstraDist:item-distance", || format!("item {:?} but reference distance {:?}", bad.unwrap(), refd.get(&bad.unwrap().0)));
 
+    if n <= 24 && src.len() == 1 && m.size() % 6 == 1 {
+        crate::obs::iter_consistency(o, "Dijkstra", || Dijkstra::new(&d, src.iter().copied()));
+        crate::obs::iter_consistency(o, "DijkstraDist", || DijkstraDist::new(&d, src.iter().copied()));
+    }
     let sup = superseded_pop(&m, &src);
     let mut fp = Fp::new();
     m.fingerprint(&mut fp);
